@@ -585,6 +585,12 @@ def saturation_universe(rng, cfg):
                         atoms.append(atom(name, op, v, True))
                 atoms.append(atom(name, "==", f"{b[0]}.{b[1]}.*"))
                 atoms.append(atom(name, "!=", f"{b[0]}.{b[1]}.*"))
+            if name == "python_version":
+                nb = (bases[0][0], bases[0][1] + 1)
+                x, y = f"{bases[0][0]}.{bases[0][1]}", f"{nb[0]}.{nb[1]}"
+                for lst in (f"{x}, {y}", f"{y},{x}", f"{x}"):
+                    atoms.append(atom(name, "in", lst))
+                    atoms.append(atom(name, "not in", lst))
     elif kind == "release":
         for v in RELEASE_VALUES[:5]:
             for op in [">=", "<", "==", "!=", ">", "<="]:
